@@ -1,8 +1,50 @@
 //! Utility for UI XML generation.
 
 use super::XmlWriter;
+use quick_xml::escape::escape;
+use quick_xml::events::attributes::Attribute;
 use quick_xml::events::{BytesStart, BytesText, Event};
+use quick_xml::name::QName;
+use std::borrow::Cow;
 use std::io;
+
+/// Creates text content which will be read back as the given `content`.
+///
+/// In addition to the markup characters, CR has to be written as character reference.
+/// Otherwise it would be normalized to LF by XML parser.
+pub(super) fn escaped_text(content: &str) -> BytesText<'_> {
+    let escaped = escape(content);
+    if escaped.contains('\r') {
+        BytesText::from_escaped(escaped.replace('\r', "&#13;"))
+    } else {
+        BytesText::from_escaped(escaped)
+    }
+}
+
+/// Creates attribute whose value will be read back as the given `value`.
+///
+/// In addition to the markup characters, TAB, LF, and CR have to be written as character
+/// references. Otherwise they would be normalized to space by XML parser.
+pub(super) fn escaped_attribute<'a>(key: &'a str, value: &'a str) -> Attribute<'a> {
+    let escaped = escape(value);
+    let escaped = if escaped.contains(['\t', '\n', '\r']) {
+        Cow::Owned(
+            escaped
+                .replace('\t', "&#9;")
+                .replace('\n', "&#10;")
+                .replace('\r', "&#13;"),
+        )
+    } else {
+        escaped
+    };
+    Attribute {
+        key: QName(key.as_bytes()),
+        value: match escaped {
+            Cow::Borrowed(s) => Cow::Borrowed(s.as_bytes()),
+            Cow::Owned(s) => Cow::Owned(s.into_bytes()),
+        },
+    }
+}
 
 pub(super) fn write_tagged_str<W, S, T>(
     writer: &mut XmlWriter<W>,
@@ -16,7 +58,7 @@ where
 {
     let tag = BytesStart::new(tag.as_ref());
     writer.write_event(Event::Start(tag.borrow()))?;
-    writer.write_event(Event::Text(BytesText::new(content.as_ref())))?;
+    writer.write_event(Event::Text(escaped_text(content.as_ref())))?;
     writer.write_event(Event::End(tag.to_end()))?;
     Ok(())
 }
